@@ -12,6 +12,7 @@ import (
 	"github.com/postalsys/muti-metroo/internal/identity"
 	"github.com/postalsys/muti-metroo/internal/protocol"
 	"github.com/postalsys/muti-metroo/internal/transport"
+	"github.com/postalsys/muti-metroo/internal/verifhook"
 )
 
 // ConnectionState represents the state of a peer connection.
@@ -230,6 +231,7 @@ func (c *Connection) AcceptStream(ctx context.Context) (transport.Stream, error)
 
 // WriteFrame writes a frame to the connection.
 func (c *Connection) WriteFrame(f *protocol.Frame) error {
+	verifhook.Point("peer.frame.write", c.LocalID, c.RemoteID, f)
 	c.writeMu.Lock()
 	defer c.writeMu.Unlock()
 
